@@ -1,6 +1,6 @@
 use std::{cell::RefCell, collections::HashMap};
 
-use chrono::Datelike;
+use chrono::{Datelike, NaiveDate};
 
 use crate::{
     geo::{astro::TopAstroDay, coordinates::Coordinates, julian_day::JulianDay},
@@ -174,7 +174,10 @@ fn adj_near_good(
 
     let mut adj_hours = HashMap::new();
     let julian_day = top_astro_day.julian_day();
-    for i in 0..=julian_day.date.ordinal() {
+    // Search outwards for at most a year: up to the day of year of December 31st.
+    let last_day = NaiveDate::from_ymd_opt(julian_day.date.year(), 12, 31)
+        .map_or(366, |date| date.ordinal());
+    for i in 0..=last_day {
         if let Some(hour) = test_fajr_isha(
             params,
             top_astro_day.coords(),
